@@ -94,21 +94,45 @@ def check_recovered(rec, hist, lo, hi):
     return None
 
 
+def scripted_stream():
+    """every persistence path once, in a fixed order: first write of a key of every type, re-write of a
+    changed value, re-write under a changed deadline (entries are addressed by name AND deadline: the old
+    entry has to go and the new one has to be there - in which order is what a kill in between decides),
+    a deadline removed, rename, delete, eviction passes in between"""
+    far = 4102444800000
+    keys = ["7331", "6c31", "6831", "7431", "7a31"]
+    ops = ["api Set 7331 7631 0", "api RPush 6c31 61 62", "api HSet 6831 66 7631", "api SAdd 7431 61 62", "api ZAdd 7a31 61 3ff0000000000000", "flush"]
+    ops += [f"api ExpireAt {k} {far}" for k in keys] + ["flush"]
+    ops += ["api Append 7331 7a", "api RPush 6c31 63", f"api ExpireAt 6831 {far + 5000}", "gc"]
+    ops += [f"api ExpireAt {k} {far + 9000}" for k in keys] + ["gc", "api HSet 6831 67 7632", "flush"]
+    ops += [f"api Persist {k}" for k in keys] + ["flush", "api Rename 7331 7332", "flush", f"api ExpireAt 7332 {far}", "api Rename 7332 7331", "flush"]
+    ops += ["api Del 6c31", "api SPop 7431 2", "flush", "api Set 7331 7639 0", f"api ExpireAt 7331 {far + 1000}", "flush"]
+    return ops
+
+
 def one_stream(ctx, h, si, n_ops, kill_points, cycles):
     rng = ctx.rng
-    ops = gen_stream(rng, n_ops)
+    ops = scripted_stream() if si == "s" else gen_stream(rng, n_ops)
     d0 = f"{ctx.work}/p{si}-dry"
     shutil.rmtree(d0, ignore_errors=True)
     rc, out, se = run_h(ctx, h, [f"open a pebble {d0}"] + interleave(ops) + ["storecalls"], f"dry{si}")
     shutil.rmtree(d0, ignore_errors=True)
     if rc != 0 or not out or not out[-1].startswith("calls="):
         raise SystemExit(vlib.harness_error(ctx, f"uninterrupted run failed rc={rc}: {se[-500:]}"))
-    total = int(out[-1].split("=")[1])
+    total = int(out[-1].split()[0].split("=")[1])
+    kinds = out[-1].split("kinds=")[1] if "kinds=" in out[-1] else ""
     hist = [{}] + [parse_dump(out[2 + 2 * i]) for i in range(len(ops))]     # hist[j]: after op j (1-based)
     ctx.cov["storage_calls_in_streams"] = ctx.cov.get("storage_calls_in_streams", 0) + total
     points = list(range(1, total + 1))
     if kill_points and len(points) > kill_points:
-        points = sorted(rng.sample(points, kill_points))
+        # a sample: first the points next to a deletion (the n-th call or its successor is a Delete: the
+        # windows in which an entry has been removed and its replacement may not have been written, or the
+        # other way round), then random ones
+        near = [n for n in points if kinds[n - 1:n] == "D" or kinds[n:n + 1] == "D"]
+        near = near if len(near) <= kill_points else sorted(rng.sample(near, kill_points))
+        rest = [n for n in points if n not in near]
+        points = sorted(near + rng.sample(rest, min(len(rest), max(2, kill_points - len(near)))))
+        ctx.cov["kill_points_next_to_a_delete"] = ctx.cov.get("kill_points_next_to_a_delete", 0) + len(near)
     for n in points:
         for mode in ("before", "after"):
             d = f"{ctx.work}/p{si}-{n}-{mode}"
@@ -144,7 +168,7 @@ def one_stream(ctx, h, si, n_ops, kill_points, cycles):
                 cont = gen_stream(rng, 12) + ["flush"]
                 rc, o3, se = run_h(ctx, h, [f"attach a pebble {d}"] + interleave(cont) + ["storecalls"], f"cont{si}")
                 # (uninterrupted continuation run on a copy gives the oracle)
-                tot2 = int(o3[-1].split("=")[1]) if o3 and o3[-1].startswith("calls=") else 0
+                tot2 = int(o3[-1].split()[0].split("=")[1]) if o3 and o3[-1].startswith("calls=") else 0
                 hist2 = [rec] + [parse_dump(o3[2 + 2 * i]) for i in range(len(cont))] if tot2 else None
                 # the continuation above ran to completion on d itself: reopening must give its final state
                 rc, o4, se = run_h(ctx, h, [f"attach a pebble {d}", "ldump"], f"rec2{si}")
@@ -160,7 +184,10 @@ def one_stream(ctx, h, si, n_ops, kill_points, cycles):
 def run(ctx, proofs_ok):
     q = ctx.tier == "quick"
     h = vlib.build_harness(ctx)
+    one_stream(ctx, h, "s", 0, 14 if q else 0, cycles=False)
+    if ctx.violations:
+        return
     for si in range(2 if q else 8):
-        one_stream(ctx, h, si, 40 if q else 120, 12 if q else 0, cycles=(si % 2 == 0))
+        one_stream(ctx, h, si, 40 if q else 120, 10 if q else 0, cycles=(si % 2 == 0))
         if ctx.violations:
             return
